@@ -149,9 +149,13 @@ func init() {
 		if err := fc.store(l, nv); err != nil {
 			return nil, err
 		}
+		if b, ok := pt.Elem().Underlying().(*types.Basic); ok && b.Info()&types.IsInteger != 0 {
+			// the last integer decoded from a reader is visible to specifications as ghostv("lastint", r)
+			fc.setComp("GH.lastint", arraySort("Int"), sto(fc.ghArr("GH.lastint"), args[0].T, nv.T))
+		}
 		return &Val{T: errT, S: SInt, Typ: rt}, nil
 	}
-	builtinMods["encoding/binary.Read"] = []string{ghConsumed, ghCount, ghFailed, "*"}
+	builtinMods["encoding/binary.Read"] = []string{ghConsumed, ghCount, ghFailed, "GH.lastint", "*"}
 
 	builtinModels["encoding/binary.Write"] = func(fc *FnCtx, c *ssa.CallCommon, args []Val, rt types.Type) (*Val, error) {
 		fc.vc.trust("writers (bytes.Buffer, net.Conn) are not modelled: writes return an arbitrary error and change no modelled state")
